@@ -260,7 +260,7 @@ pub fn record(args: &Args) {
         if let Some(path) = args.opt.get(key) {
             for (i, c) in read_ndjson(path).iter().enumerate() {
                 // the boundary-date family of Gen_Grammar is always included
-                let keep = if key == "extremes" { (i as u64 + seed) % extremes_every == 0 } else { c["family"] == "edge" || (i as u64 + seed) % every == 0 };
+                let keep = if key == "extremes" { c["always"] == true || (i as u64 + seed) % extremes_every == 0 } else { c["family"] == "edge" || (i as u64 + seed) % every == 0 };
                 if keep {
                     inputs.push(c["text"].as_str().unwrap().to_string());
                 }
